@@ -8,3 +8,5 @@ pub(crate) mod proof_format;
 pub(crate) mod proof_normal_form;
 pub(crate) mod proof_simplification;
 pub(crate) mod proof_tests;
+#[cfg(egglog_verif)]
+pub(crate) mod verif_hook;
